@@ -1139,6 +1139,52 @@ def _sh_minimum(x, y, *a, **kw):
     return _np.minimum(x, y, *a, **kw)
 
 
+def _sh_linspace(start, stop, num=50, endpoint=True, retstep=False, dtype=None, axis=0):
+    """np.linspace over the reals: start + i * (stop - start) / div (numpy sets the last sample to
+    `stop` itself, the same real number)"""
+    if symbolic_active() and (is_sym(start) or is_sym(stop)) and not retstep and axis == 0 \
+            and _np.ndim(start) == 0 and _np.ndim(stop) == 0:
+        num = int(num)
+        div = (num - 1) if endpoint else num
+        out = _np.empty(num, dtype=object)
+        a, b = wrap(start), wrap(stop)
+        for i in range(num):
+            out[i] = a if i == 0 else (b if (endpoint and i == num - 1) else a + (b - a) * i / div)
+        return symarr(out)
+    return _np.linspace(start, stop, num, endpoint, retstep, dtype, axis)
+
+
+def _mk_minmax(realfn, is_max):
+    """np.min / np.max of a symbolic array without axis: an if-then-else chain (no path forks)"""
+    def f(a, axis=None, out=None, **kw):
+        if symbolic_active() and axis is None and out is None and not kw and is_sym(a):
+            vals = _np.asarray(a, dtype=object).ravel().tolist()
+            cur = lift(wrap(vals[0]))
+            for v in vals[1:]:
+                t = lift(wrap(v))
+                cur = z3.If(t >= cur, t, cur) if is_max else z3.If(t <= cur, t, cur)
+            return SymReal(cur)
+        return realfn(a, axis=axis, out=out, **kw)
+    return f
+
+
+class _LinalgShim:
+    """np.linalg inside gstools modules: the 2-norm of a symbolic vector is sqrt(sum x_i^2)"""
+
+    def __getattr__(self, name):
+        return getattr(_np.linalg, name)
+
+    @staticmethod
+    def norm(x, ord=None, axis=None, keepdims=False):
+        if symbolic_active() and is_sym(x) and ord in (None, 2) and axis is None and not keepdims \
+                and _np.ndim(x) == 1:
+            tot = wrap(0)
+            for v in _np.asarray(x, dtype=object).tolist():
+                tot = tot + wrap(v) * wrap(v)
+            return _NP_OVERRIDES["sqrt"](tot)
+        return _np.linalg.norm(x, ord, axis, keepdims)
+
+
 def _forked_bools(arr):
     a = _np.asarray(arr, dtype=object)
     if a.ndim == 0:
@@ -1220,6 +1266,10 @@ def _sh_square(x, *a, **kw):
 
 _NP_OVERRIDES = {
     "array": _mk_array_like(_np.array),
+    "linspace": _sh_linspace,
+    "min": _mk_minmax(_np.min, False), "amin": _mk_minmax(_np.min, False),
+    "max": _mk_minmax(_np.max, True), "amax": _mk_minmax(_np.max, True),
+    "linalg": _LinalgShim(),
     "asarray": _mk_array_like(_np.asarray),
     "asanyarray": _mk_array_like(_np.asanyarray),
     "zeros": _mk_filled(_np.zeros, 0),
